@@ -3073,3 +3073,169 @@ Proof.
   - destruct (existsb fst rest) eqn:Ee; [|discriminate H]. injection H as <-.
     split; [reflexivity|]. exists b1, rest. split; [reflexivity|exact Ee].
 Qed.
+
+
+
+(** * pinned forms *)
+Theorem C01_roundtrip_thm : forall m t v w w',
+  wf_ty t -> wf_val t v -> ~ Known_C01 m t v -> wst_wf w -> w_scope w = None ->
+  write_ty m t v w = Ok w' ->
+  exists bs, w_bits w' = w_bits w ++ bs /\ w_scope w' = None /\ wst_wf w' /\
+    forall s tail, rsrc s bs tail ->
+      read_ty m t (r_of_src s) = Ok (v, r_of_src (src_adv s (bl bs) tail)).
+Proof.
+  intros m t v w w' Hty Hv Hk Hw Hs H.
+  destruct (C01_roundtrip_full m t v w w' Hty Hv Hk Hw Hs H) as (bs & _ & _ & A & B & C & D).
+  exists bs. auto.
+Qed.
+
+Theorem seq_refusal_complete m fs so fc e vals fes w b rest :
+  wf_ty (TSeq fs so fc (Some e)) -> wst_wf w -> w_scope w = None ->
+  enc_fields m fs vals = Ok fes ->
+  skipn (S (N.to_nat e)) fes = (false, b) :: rest -> existsb fst rest = true ->
+  write_ty m (TSeq fs so fc (Some e)) (VSeq vals) w = Err E_EXT_INCONSISTENT.
+Proof.
+  intros Hty Hw Hs Ef Hsk Hex. apply wf_ty_seq in Hty. destruct Hty as [Hc Hf].
+  assert (F : Forall (fun f => Wprop m (snd f)) fs).
+  { apply all_wf_fields_Forall in Hf. rewrite Forall_forall in *. intros f Hin. apply write_enc, Hf, Hin. }
+  rewrite (seq_write_exact m fs so fc (Some e) vals fes w F Hc Hw Hs Ef).
+  unfold seq_assemble. cbv zeta. rewrite Hsk. unfold ext_part. rewrite Hex. reflexivity.
+Qed.
+
+Theorem seq_write_reference m fs so fc ea vals fes w :
+  wf_ty (TSeq fs so fc ea) -> wst_wf w -> w_scope w = None ->
+  enc_fields m fs vals = Ok fes ->
+  write_ty m (TSeq fs so fc ea) (VSeq vals) w = w_put w (seq_assemble m fs fes ea).
+Proof.
+  intros Hty Hw Hs Ef. apply wf_ty_seq in Hty. destruct Hty as [Hc Hf].
+  apply seq_write_exact; try assumption.
+  apply all_wf_fields_Forall in Hf. rewrite Forall_forall in *. intros f Hin. apply write_enc, Hf, Hin.
+Qed.
+
+Theorem seq_component_failure m fs so fc ea vals w :
+  wf_ty (TSeq fs so fc ea) -> wst_wf w -> w_scope w = None ->
+  is_ok (enc_fields m fs vals) = false ->
+  is_ok (write_ty m (TSeq fs so fc ea) (VSeq vals) w) = false.
+Proof.
+  intros Hty Hw Hs H. pose proof (write_enc m _ Hty (VSeq vals) w Hw Hs) as S. unfold wsim in S.
+  rewrite enc_seq_eq in S. destruct (enc_fields m fs vals); [discriminate H|exact S|exact S].
+Qed.
+
+Lemma omitted_components m ft d x :
+  enc_field m (FOpt, ft) None = Ok (false, []) /\
+  (val_eqb d x = true -> enc_field m (FDef d, ft) (Some x) = Ok (false, []) /\ x = d).
+Proof.
+  split; [reflexivity|]. intros H. cbn [enc_field]. rewrite H. split; [reflexivity|].
+  symmetry. apply val_eqb_eq. exact H.
+Qed.
+
+(** * witnesses of the excluded classes *)
+Definition rt_fails (m : mode) (t : ty) (v : val) : bool :=
+  match write_ty m t v w_empty with
+  | Ok w' =>
+      let bs := w_bits w' in
+      match read_ty m t (r_of_src (src_of_bits bs (bl bs))) with
+      | Ok (v', r) => negb (val_eqb v v' && (s_pos (r_src r) =? bl bs))
+      | _ => true
+      end
+  | _ => false
+  end.
+
+Lemma refuted_count_16k :
+  exists m t v, wf_ty t /\ wf_val t v /\ Known_C01 m t v /\ rt_fails m t v = true.
+Proof.
+  exists dev_mode, (TListOf TNull None None false), (VList (repeat VNull 16385)).
+  split; [cbn; auto|]. split.
+  - cbn [wf_val]. split; [vm_compute; reflexivity|].
+    generalize 16385%nat. induction n; cbn [repeat]; auto.
+  - split; [|vm_compute; reflexivity].
+    cbn [Known_C01]. left. right. split; [vm_compute; discriminate|]. right. split; reflexivity.
+Qed.
+
+Lemma refuted_bitstring_16k :
+  exists m t v, wf_ty t /\ Known_C01 m t v /\ rt_fails m t v = true.
+Proof.
+  exists dev_mode, (TBitStr None None false), (VBits (repeat 255 2048) 16384).
+  split; [exact I|]. split; [|vm_compute; reflexivity].
+  cbn [Known_C01]. right. split; [vm_compute; discriminate|].
+  intros (u & C & _). discriminate C.
+Qed.
+
+(* an extension addition whose open type holds 16K octets: the writer fragments, the reader does not *)
+Definition big_ext_ty : ty := TSeq [(FReq, TBool); (FOpt, TOctets None None false)] 0 2 (Some 0).
+Definition big_ext_val : val := VSeq [Some (VBool true); Some (VOctets (repeat 7 16384))].
+
+Lemma refuted_open_type_16k :
+  exists m t v, wf_ty t /\ is_ok (write_ty m t v w_empty) = true /\ rt_fails m t v = true.
+Proof.
+  exists dev_mode, big_ext_ty, big_ext_val.
+  split; [vm_compute; repeat split; discriminate|]. split; vm_compute; reflexivity.
+Qed.
+
+(* F10-1: SIZE(2..MAX): a value of 3 octets is a value of the type and is refused *)
+Lemma refuted_size_F10_1 :
+  exists m t v, wf_ty t /\ wf_val t v /\ Known_C01 m t v /\ is_ok (write_ty m t v w_empty) = false.
+Proof.
+  exists dev_mode, (TOctets (Some 2) None false), (VOctets [1; 2; 3]).
+  split; [exact I|]. split; [|split; [|vm_compute; reflexivity]].
+  - cbn [wf_val]. split; [repeat constructor|vm_compute; reflexivity].
+  - cbn [Known_C01]. split; [cbn; discriminate|]. vm_compute. split; discriminate.
+Qed.
+
+(** * non-vacuity *)
+Definition ex_inner : ty :=
+  TSeq [(FReq, TInt U8 (Some 0%Z) (Some 255%Z) false); (FOpt, TBool)] 1 2 None.
+Definition ex_ty : ty :=
+  TSeq [ (FReq, TInt I16 (Some (-5)%Z) (Some 1000%Z) true);
+         (FOpt, TBool);
+         (FDef (VInt 7), TInt U8 (Some 0%Z) (Some 255%Z) false);
+         (FReq, TChoice [TBool; TNull; TEnum 3 2 true] 2 true);
+         (FReq, TListOf (TInt U8 (Some 0%Z) (Some 255%Z) false) (Some 1) (Some 4) false);
+         (* extension additions *)
+         (FOpt, ex_inner);
+         (FDef (VBool false), TBool);
+         (FOpt, TEnum 4 4 false) ]
+       2 8 (Some 4).
+Definition ex_val : val :=
+  VSeq [ Some (VInt 2000); None; Some (VInt 7); Some (VChoice 2 (VEnum 2));
+         Some (VList [VInt 1; VInt 2; VInt 3]);
+         Some (VSeq [Some (VInt 9); Some (VBool true)]); Some (VBool true); None ].
+
+Lemma nonvacuous_c01 :
+  wf_ty ex_ty /\ wf_val ex_ty ex_val /\
+  (exists w', write_ty dev_mode ex_ty ex_val w_empty = Ok w' /\
+     let bs := w_bits w' in
+     enc dev_mode ex_ty ex_val = Ok bs /\
+     read_ty dev_mode ex_ty (r_of_src (src_of_bits (bs ++ [true; false]) (bl bs + 2)))
+     = Ok (ex_val, r_of_src (src_adv (src_of_bits (bs ++ [true; false]) (bl bs + 2)) (bl bs) [true; false]))).
+Proof.
+  split; [|split].
+  - vm_compute. repeat split; try discriminate; try reflexivity.
+  - vm_compute. repeat split; try discriminate; try reflexivity.
+  - eexists. split; [vm_compute; reflexivity|]. vm_compute. split; reflexivity.
+Qed.
+
+(* the preamble of a SEQUENCE { a, b OPTIONAL, c DEFAULT 7, ..., d OPTIONAL, e OPTIONAL }:
+   absent b, c equal to its default, first addition present, second absent *)
+Definition ex3_ty : ty :=
+  TSeq [ (FReq, TBool); (FOpt, TBool); (FDef (VInt 7), TInt U8 (Some 0%Z) (Some 255%Z) false);
+         (FOpt, TBool); (FOpt, TBool) ] 2 5 (Some 2).
+Definition ex3_val : val := VSeq [Some (VBool true); None; Some (VInt 7); Some (VBool true); None].
+Definition ex3_bad : val := VSeq [Some (VBool true); None; Some (VInt 7); None; Some (VBool true)].
+
+Lemma nonvacuous_c03 :
+  wf_ty ex3_ty /\
+  (exists w', write_ty dev_mode ex3_ty ex3_val w_empty = Ok w' /\
+     (* ext bit, presence bits 0 0, a = 1, count 2 as normally small 1, presence 1 0, open type 01 80 *)
+     w_bits w' = [true; false; false; true] ++ [false; false; false; false; false; false; true] ++ [true; false]
+                 ++ bits_of_bytes [1; 128]) /\
+  write_ty dev_mode ex3_ty ex3_bad w_empty = Err E_EXT_INCONSISTENT /\
+  (exists w', write_ty release_mode ex3_ty ex3_val w_empty = Ok w' /\
+     read_ty release_mode ex3_ty (r_of_src (src_of_bits (w_bits w') (bl (w_bits w'))))
+     = Ok (ex3_val, r_of_src (src_adv (src_of_bits (w_bits w') (bl (w_bits w'))) (bl (w_bits w')) []))).
+Proof.
+  split; [vm_compute; repeat split; try discriminate; try reflexivity|].
+  split; [eexists; split; [vm_compute; reflexivity|vm_compute; reflexivity]|].
+  split; [vm_compute; reflexivity|].
+  eexists; split; [vm_compute; reflexivity|]. vm_compute. reflexivity.
+Qed.
